@@ -66,4 +66,4 @@ def prop(case, ctx):
     ctx.check(err <= 1e-7 * nrm, "svd_incomplete did not recover the low-rank tensor", rel_err=err / nrm, ranks=oracle.ranks_of(Y), cond_unfold=cond)
 
 
-SUBCHECKS = [Sub("recover", prop, strategy=cases, quick=400, thorough=6000)]
+SUBCHECKS = [Sub("recover", prop, strategy=cases, quick=1000, thorough=8000)]
